@@ -47,8 +47,11 @@ def build(spec, dialect: str, coltypes: Dict[str, str]) -> Built:
         if ty == BOOL:
             return Built(("lit", bool(v)), sa.true() if v else sa.false(), ty)
         return Built(("lit", v), sa.literal(v, TY[ty]()), ty)
-    kids = [build(c, dialect, coltypes) for c in spec[1:] if isinstance(c, list)]
-    extra = [c for c in spec[1:] if not isinstance(c, list)]
+    def is_spec(c):
+        return isinstance(c, list) and c and isinstance(c[0], str)
+
+    kids = [build(c, dialect, coltypes) for c in spec[1:] if is_spec(c)]
+    extra = [c for c in spec[1:] if not is_spec(c)]
     a = kids[0] if kids else None
     b = kids[1] if len(kids) > 1 else None
     c = kids[2] if len(kids) > 2 else None
@@ -108,6 +111,20 @@ def build(spec, dialect: str, coltypes: Dict[str, str]) -> Built:
         return Built(("like", a.ast, b.ast, None, True, "LIKE"), a.sa.not_like(b.sa), BOOL)
     if op == "like_esc":
         return Built(("like", a.ast, b.ast, ("lit", "/"), False, "LIKE"), a.sa.like(b.sa, escape="/"), BOOL)
+    if op in ("in_list", "not_in_list"):
+        values = spec[2]["v"]
+        ity = a.ty if a.ty in TY else INT
+        ast = ("in", a.ast, [("lit", v) for v in values], op == "not_in_list")
+        e = a.sa.in_(values) if op == "in_list" else a.sa.not_in(values)
+        return Built(ast, e, BOOL)
+    if op in ("tin_list", "not_tin_list"):
+        # tuple IN: children = the tuple's elements, last positional = list of value rows
+        rows = spec[-1]["rows"]
+        elems = kids
+        ast = ("in", ("row", [k.ast for k in elems]), [("row", [("lit", v) for v in r]) for r in rows], op == "not_tin_list")
+        t = sa.tuple_(*[k.sa for k in elems])
+        e = t.in_([tuple(r) for r in rows]) if op == "tin_list" else t.not_in([tuple(r) for r in rows])
+        return Built(ast, e, BOOL)
     if op == "in":
         items = kids[1:]
         return Built(("in", a.ast, [k.ast for k in items], False), a.sa.in_([k.sa for k in items]), BOOL)
